@@ -7,7 +7,8 @@
    annotation of a wire is right for v + cc.ZeroWire()/cc.OneWire() exist. *)
 From Coq Require Import List Bool Arith.
 From Mpc Require Import Circuit.Circuit Circuit.Passes Circuit.PassesProof Circuit.PassesBFS
-  Circuit.PassesIO Circuit.PassesInv Circuit.PassesExamples.
+  Circuit.PassesIO Circuit.PassesTV Circuit.PassesInv Circuit.PassesPrune Circuit.PassesPanic
+  Circuit.PassesExamples.
 Import ListNotations.
 
 (* For every freshly built graph (gates in dependency order, single
@@ -118,8 +119,9 @@ Proof. exact (fun G WF R => conj (const_propagate_ranged G WF R) (fun p => io_op
 Print Assumptions C09_ranges.
 
 (* The bookkeeping invariant through the rewriting passes, for every freshly
-   built graph (wfg + wfb + wfx = gates in dependency order, exact builder
-   bookkeeping, an acyclicity witness): after ConstPropagate and
+   built graph (wfg + wfb + wfx = gates in dependency order and the builder's
+   bookkeeping; the acyclicity witness is derived from the construction
+   order): after ConstPropagate and
    ShortCircuitXORZero the output-gate lists still cover every consumer slot
    with multiplicity, NumOutputs >= true use count, stale entries included
    (BK); the graph is acyclic, single-producer, outputs unconsumed and still
@@ -143,19 +145,52 @@ Theorem C09_short_circuit_pipeline :
 Proof. exact short_circuit_sat_wf. Qed.
 Print Assumptions C09_short_circuit_pipeline.
 
-(* For all prune flags, all targets, every freshly built graph and every
-   input: the circuit produced by the pipeline of CompileCircuit computes the
-   meaning of the graph.  The one hypothesis left beyond the well-formedness
-   of the initial graph: the optimised graph satisfies Compile's precondition
-   [cwf] (BK and ST0 above are its substance; what is not yet derived is the
-   step through Prune and the frame facts about ids/flags). *)
+(* The graph handed to Compile satisfies Compile's precondition, with and
+   without Prune, for every freshly built graph: Prune removes a gate only
+   when NumOutputs of its output wire is 0 >= its true use count and the wire
+   is not an output, so no live gate and no circuit output needs it; no pass
+   assigns a wire id, sets Visited or changes an output flag. *)
+Theorem C09_optimize_cwf :
+  forall (do_prune : bool) G, wfg G -> wfb G -> wfx G -> cwf (optimize do_prune G).
+Proof. exact optimize_cwf. Qed.
+Print Assumptions C09_optimize_cwf.
+
+(* C09 at the pass level: for all prune flags, all targets, every freshly
+   built graph (wfg + wfb + wfx) and every input, the circuit produced by the
+   pipeline of CompileCircuit (ConstPropagate, ShortCircuitXORZero, optional
+   Prune, Compile with the GMW level sort) computes the meaning of the graph
+   under Circuit.Compute.  No hypothesis besides the well-formedness of the
+   initial graph. *)
 Theorem C09_options :
   forall (do_prune : bool) t G x,
     wfg G -> wfb G -> wfx G -> length x = length (gins G) ->
-    cwf (optimize do_prune G) ->
     eval_plain (pipeline do_prune t G) x = graph_eval G x.
-Proof. exact pipeline_correct_wf. Qed.
+Proof. exact pipeline_correct_all. Qed.
 Print Assumptions C09_options.
+
+(* The acyclicity witness is not a hypothesis: a graph whose gates were added
+   in dependency order has a rank function that decreases along every gate and
+   puts both constant wires at the same rank (position of the first producing
+   gate, the two constants lowered to the smaller of their positions). *)
+Theorem C09_acyclic_from_construction :
+  forall G, wfg G ->
+    exists rank,
+      (forall c, In c (gorder G) -> forall w, In w (inputs_of (gn G c)) -> rank w < rank (nO (gn G c))) /\
+      (forall k k', isconst G k -> isconst G k' -> rank k = rank k').
+Proof. exact fresh_rank_ok. Qed.
+Print Assumptions C09_acyclic_from_construction.
+
+(* No panic (the model's sticky error code) in ShortCircuitXORZero, Prune and
+   Compile, for every freshly built graph, every prune flag (Compile's id
+   assignment is target independent): the error code after Compile is the one
+   ConstPropagate left.  Prune never underflows NumOutputs, Compile's queue
+   never outlives its fuel and no output wire is assigned twice.
+   ConstPropagate itself is not covered (see props/C09.json). *)
+Theorem C09_no_panic :
+  forall (do_prune : bool) G, wfg G -> wfb G -> wfx G ->
+    gerr (cg (compile_assign (optimize do_prune G))) = gerr (const_propagate G).
+Proof. exact no_panic_after_cp. Qed.
+Print Assumptions C09_no_panic.
 
 (* The hypotheses are inhabited: the example graph (constants, fan-out, an
    XOR with zero, an OR with one, an unused gate) satisfies wfg, wfb and cwf,
